@@ -92,3 +92,19 @@ def make_untyped(a: int = 1):
 
 
 not_a_class = 5
+
+
+class _Hidden(Base):
+    """a non-public intermediate class: not offered itself, but its public subclasses are subclasses of Base like any other"""
+
+    def __init__(self, h: int = 2, **kwargs):
+        super().__init__(**kwargs)
+        LOG.append(("_Hidden", type(self).__name__, dict(h=h, **kwargs)))
+        self.h = h
+
+
+class ViaHidden(_Hidden):
+    def __init__(self, v: int = 6, **kwargs):
+        super().__init__(**kwargs)
+        LOG.append(("ViaHidden", type(self).__name__, dict(v=v, **kwargs)))
+        self.v = v
